@@ -207,7 +207,7 @@ PROPS = {
               'be the model value of its own parameter, and after the heal every poller completes a correct poll within 150 s'),
         assumptions=['client timeouts, poll cycle and back-off run on the virtual clock',
                      'c13s: a stalled thread loses 2 ms .. 2.5 s of virtual time at a line of the proxy/client release path'],
-        quick=dict(parts=[dict(world='c13', count=320), dict(world='c13s', count=160)]),
+        quick=dict(parts=[dict(world='c13', count=320), dict(world='c13s', count=240)]),
         thorough=dict(parts=[dict(world='c13', count=8000), dict(world='c13s', count=6000)], sweep=dict(world='c13', streams=16)),
     ),
     'C14': dict(
